@@ -6,7 +6,9 @@ package vf
 
 import (
 	"bytes"
+	"encoding/binary"
 	"fmt"
+	"hash/crc32"
 	"os"
 	"path/filepath"
 	"sort"
@@ -162,6 +164,26 @@ func runSegCase(c *SegCase, st *Stats) {
 					copy(nb[len(nb)-tl:], fill)
 					add(fmt.Sprintf("overwrite-tail%d len %d", fi, tl), nb, idxB, true, false)
 				}
+			}
+		}
+		// damage that repairs its own checksum: the record's CRC32C is recomputed after the change, so only the other
+		// validity conditions of the format can tell. A changed trailer is not a valid record; a changed value byte is
+		// a valid record with other content (the log parses, the index must follow it)
+		for ri, r := range recs {
+			for tb := 0; tb < 8; tb++ {
+				if !thorough && tb != (ri*3+len(logB))%8 {
+					continue
+				}
+				nb := append([]byte{}, logB...)
+				nb[r.End-8+int64(tb)] ^= 1 << uint((ri+tb)%8)
+				binary.BigEndian.PutUint32(nb[r.Pos:], crc32.Checksum(nb[r.Pos+4:r.End], crc32.MakeTable(crc32.Castagnoli)))
+				add(fmt.Sprintf("forged-trailer rec %d byte %d (crc recomputed)", ri, tb), nb, idxB, true, false)
+			}
+			if len(r.Val) > 0 {
+				nb := append([]byte{}, logB...)
+				nb[r.End-8-1] ^= 0x20
+				binary.BigEndian.PutUint32(nb[r.Pos:], crc32.Checksum(nb[r.Pos+4:r.End], crc32.MakeTable(crc32.Castagnoli)))
+				add(fmt.Sprintf("forged-value rec %d (crc recomputed)", ri), nb, idxB, true, false)
 			}
 		}
 		// a valid-looking record of another offset appended (parses: must be kept, index must follow)
